@@ -123,4 +123,87 @@ theorem smod_spec (a b : Word) (ha : a < W) (hb : b < W) :
     · rw [ofInt_neg_nat hq]
     · rw [ofInt_neg_nat hq]
 
+/-! ### SAR and SIGNEXTEND -/
+
+theorem negdiv (m P : Nat) (hP : 0 < P) : (-((m : Int) + 1)) / (P : Int) = -((m / P : Nat) : Int) - 1 := by
+  have hm : (m : Int) = (P : Int) * ((m / P : Nat) : Int) + ((m % P : Nat) : Int) := by
+    have := Nat.div_add_mod m P
+    exact_mod_cast this.symm
+  have hr : (m % P : Nat) < P := Nat.mod_lt _ hP
+  have e : -((m : Int) + 1) = ((P : Int) - 1 - ((m % P : Nat) : Int)) + (P : Int) * (-((m / P : Nat) : Int) - 1) := by
+    rw [Int.mul_sub, Int.mul_neg, Int.mul_one]; omega
+  rw [e, Int.add_mul_ediv_left _ _ (by omega : (P : Int) ≠ 0), Int.ediv_eq_zero_of_lt (by omega) (by omega)]
+  omega
+
+theorem W_two_half : W = 2 ^ 255 + 2 ^ 255 := by decide
+
+theorem toInt_of_lt_half {x : Nat} (h : x < 2 ^ 255) : toInt x = (x : Int) := by
+  unfold toInt; rw [if_pos h]
+
+theorem toInt_of_ge_half {x : Nat} (h : 2 ^ 255 ≤ x) : toInt x = (x : Int) - (W : Int) := by
+  unfold toInt; rw [if_neg (Nat.not_lt.mpr h)]
+
+theorem small_div_pow {m s : Nat} (hm : m < 2 ^ 255) (hs : 256 ≤ s) : m / 2 ^ s = 0 :=
+  Nat.div_eq_of_lt (Nat.lt_of_lt_of_le hm (Nat.pow_le_pow_right (by decide) (by omega)))
+
+theorem pow_cast (s : Nat) : ((2 ^ s : Nat) : Int) = (2 : Int) ^ s := by simp
+
+theorem sar_nonneg (s v : Nat) (hv : v < 2 ^ 255) : toInt (wsar s v) = toInt v / (2 : Int) ^ s := by
+  have hn : isNeg v = false := by unfold isNeg; exact decide_eq_false (Nat.not_le.mpr hv)
+  have hq : v / 2 ^ s < 2 ^ 255 := Nat.lt_of_le_of_lt (Nat.div_le_self _ _) hv
+  have hw : wsar s v = v / 2 ^ s := by
+    unfold wsar; rw [hn]; simp only [Bool.false_eq_true, if_false]
+    by_cases hs : (256 : Nat) ≤ s
+    · rw [if_pos hs, small_div_pow hv hs]
+    · rw [if_neg hs]
+  rw [hw, toInt_of_lt_half hq, toInt_of_lt_half hv, ← pow_cast, Int.natCast_ediv]
+
+theorem sar_neg (s v : Nat) (hv : v < W) (hneg : 2 ^ 255 ≤ v) : toInt (wsar s v) = toInt v / (2 : Int) ^ s := by
+  have hn : isNeg v = true := by unfold isNeg; exact decide_eq_true hneg
+  have hW := W_two_half
+  have hm : W - 1 - v < 2 ^ 255 := by omega
+  have hq : (W - 1 - v) / 2 ^ s ≤ W - 1 - v := Nat.div_le_self _ _
+  have hw : wsar s v = W - 1 - (W - 1 - v) / 2 ^ s := by
+    unfold wsar; rw [hn]; simp only [if_true, Nat.mod_eq_of_lt hv]
+    by_cases hs : (256 : Nat) ≤ s
+    · rw [if_pos hs, small_div_pow hm hs]; rfl
+    · rw [if_neg hs]
+  have hge : 2 ^ 255 ≤ W - 1 - (W - 1 - v) / 2 ^ s := by omega
+  rw [hw, toInt_of_ge_half hge, toInt_of_ge_half hneg]
+  have e1 : (v : Int) - (W : Int) = -(((W - 1 - v : Nat) : Int) + 1) := by omega
+  rw [e1, ← pow_cast, negdiv _ _ (Nat.two_pow_pos s)]
+  omega
+
+/-- SAR is the floor division of the two's complement value by `2^s`, for every shift -/
+theorem sar_spec (s v : Nat) (hv : v < W) : toInt (wsar s v) = toInt v / (2 : Int) ^ s := by
+  rcases Nat.lt_or_ge v (2 ^ 255) with h | h
+  · exact sar_nonneg s v h
+  · exact sar_neg s v hv h
+
+/-- SIGNEXTEND over `Nat`: the low `8(b+1)` bits read as a two's complement number -/
+theorem signextend_nat (b x : Nat) (hb : b < 32) :
+    toInt (signextend b x) =
+      if x % 2 ^ (8 * (b + 1)) < 2 ^ (8 * (b + 1) - 1) then ((x % 2 ^ (8 * (b + 1)) : Nat) : Int)
+      else ((x % 2 ^ (8 * (b + 1)) : Nat) : Int) - ((2 ^ (8 * (b + 1)) : Nat) : Int) := by
+  have hW := W_two_half
+  have hn1 : 8 * (b + 1) = (8 * (b + 1) - 1) + 1 := by omega
+  have hP : 2 ^ (8 * (b + 1)) = 2 * 2 ^ (8 * (b + 1) - 1) := by
+    conv => lhs; rw [hn1, Nat.pow_succ]
+    omega
+  have hH : 2 ^ (8 * (b + 1) - 1) ≤ 2 ^ 255 := Nat.pow_le_pow_right (by decide) (by omega)
+  have hlow : x % 2 ^ (8 * (b + 1)) < 2 ^ (8 * (b + 1)) := Nat.mod_lt _ (Nat.two_pow_pos _)
+  unfold signextend
+  rw [if_neg (by omega : ¬ b > 31)]
+  simp only
+  by_cases hc : 2 ^ (8 * (b + 1) - 1) ≤ x % 2 ^ (8 * (b + 1))
+  · rw [if_pos hc, if_neg (Nat.not_lt.mpr hc)]
+    have hbig : ¬ (x % 2 ^ (8 * (b + 1)) + (W - 2 ^ (8 * (b + 1))) < 2 ^ 255) := by omega
+    unfold toInt
+    rw [if_neg hbig]
+    omega
+  · rw [if_neg hc, if_pos (Nat.lt_of_not_ge hc)]
+    have hsm : x % 2 ^ (8 * (b + 1)) < 2 ^ 255 := by omega
+    unfold toInt
+    rw [if_pos hsm]
+
 end KV.Evm
